@@ -1,6 +1,6 @@
 (* C14Check.v — judges the parsed-back output of the REAL built-in reporters. *)
 From CV Require Import Model.Base Model.Events Model.Contract Model.Normalize Model.Stats Model.StatsSpec
-  Model.Reporters Model.ReportersSpec Model.ReportersSpec2 Model.ReportersSpec3 Model.ReportersSpec4 Check.Verdict.
+  Model.Reporters Model.ReportersSpec Model.ReportersSpec2 Model.ReportersSpec3 Model.ReportersSpec4 Model.ReportersSpec5 Check.Verdict.
 From CV Require Proofs.ReportersP2 Proofs.ReportersP3 Proofs.ReportersP4.
 
 Record rcase14 := mk_rcase14 {
@@ -41,12 +41,18 @@ Definition c14_ok (c : rcase14) : bool :=
   | 0 => c14_libtest_ok es (r_report c)
   (* JSON: also the exact status code of every step and the passed hooks (ReportersSpec3) *)
   | 1 => c14_json_ok es (r_report c) && c14_json_ok2 es (r_report c)
+         (* the containers are exactly those of the run (no invented or empty-by-invention feature / element), hooks stand in
+            scenario elements, the uri flag is the feature's (ReportersSpec5) *)
+         && c14_json_containers_ok (has_path_of c) es (r_report c)
   (* terminal and JUnit: also UNDER WHICH feature / rule / testcase every fact stands (ReportersSpec2); JUnit: the
      classification of every testcase by the INDEPENDENT reading of the property (failure if a step or hook of the attempt
      failed, else skipped if a step was skipped, else success), whenever the attempts of the stream are canonical *)
   | 2 => c14_junit_ok es (r_report c) && c14_junit_attr_ok es (r_report c)
          && (negb (attempts_canonical es) || c14_junit_ok3 es (r_report c))
          && junit_errors_ok false (r_report c)
+         (* one suite per finished feature in the order Normalize forwards them, one Errors suite per parser error holding
+            exactly that error (ReportersSpec5) *)
+         && c14_junit_suites_ok (normalized_stream c) (r_report c)
   (* terminal, further: every `Feature:` / `Rule:` line is a fact of its own (none invented, none repeated, a rule under its
      own feature: multiset against the raw stream), and the whole listing — headers, scenario headers, result lines, parser
      errors — stands in the order of the stream the writer receives, i.e. of what Normalize forwards (ReportersSpec4) *)
